@@ -225,7 +225,7 @@ func runC20(c *report.Ctx) {
 	}
 
 	// ---- (3) lock order, nesting ---------------------------------------------------------------------------------
-	ruleNoTxUnderUpdate(c, 13)
+	ruleNoTxUnderUpdate(c, 8)
 	ruleLockOrder(c)
 
 	// ---- (4) suspend / resume typestate ----------------------------------------------------------------------------
